@@ -320,6 +320,11 @@ fn tampered(env: &Env, src: &mut Src<'_>) -> CaseResult {
     }
     let cj0 = cfg_json(&cfg, &vals);
     let base = run_shuffle(&cfg, &vals);
+    if base.timed_out {
+        // a wall-clock limit on the honest baseline is no verdict
+        HONEST_TIMEOUTS.fetch_add(1, std::sync::atomic::Ordering::SeqCst);
+        return Ok(CaseOk::new(false, &0u8, serde_json::Value::Null).label("inconclusive:baseline-timeout").labels(labels));
+    }
     if !base.all_ok() || check_output(&base, &vals, cfg.inner.shards).is_err() {
         return Err(violation("honest-error", format!("baseline shuffle failed: {}", base.summary()), cj0));
     }
